@@ -419,8 +419,10 @@ def build_runs(spec, tier):
 def check_property(prop, spec, tier, seed, replay=None, keep=False):
     t0 = time.time()
     known = load_known()
-    evidence_path = os.path.join(VERIF, "evidence", "%s.json" % prop)
-    os.makedirs(os.path.join(VERIF, "evidence", "replays"), exist_ok=True)
+    # runs against a scratch copy of the repository (VERIF_REPO=...) never touch the committed evidence
+    evroot = VERIF if os.path.realpath(build.REPO) == "/repo" else build.BUILD
+    evidence_path = os.path.join(evroot, "evidence", "%s.json" % prop)
+    os.makedirs(os.path.join(evroot, "evidence", "replays"), exist_ok=True)
     try:
         runs, exes = build_runs(spec, tier)
     except build.BuildError as e:
@@ -551,7 +553,7 @@ def check_property(prop, spec, tier, seed, replay=None, keep=False):
     replay_paths = {}
     for k in new_keys:
         w = by_key[k]["witness"]
-        rp = os.path.join(VERIF, "evidence", "replays", "%s-%s.json" % (prop, hashlib.sha1(k.encode()).hexdigest()[:10]))
+        rp = os.path.join(evroot, "evidence", "replays", "%s-%s.json" % (prop, hashlib.sha1(k.encode()).hexdigest()[:10]))
         with open(rp, "w") as f:
             json.dump({"property": prop, "key": k, "run": w.get("run"), "seed": w.get("seed"), "case": w.get("case"),
                        "tier": tier, "count": by_key[k]["count"], "detail": w.get("detail")}, f, indent=1)
